@@ -13,6 +13,7 @@ Act == CASE Ev.op = "create"   -> Create(Ev.out)
          [] Ev.op = "upconfig" -> UpConfig(Ev.out, Ev.out = "noecho")
          [] Ev.op = "upindex"  -> UpIndex(Ev.out, Ev.out = "noecho")
          [] Ev.op = "search"   -> Search(Ev.out, Ev.correct)
+         [] Ev.op = "restart"  -> UNCHANGED ivars               \* server restart: its state is durable
          [] OTHER -> FALSE
 Observed == /\ disk'.cc = Ev.o.cc /\ disk'.cu = Ev.o.cu /\ disk'.kc = Ev.o.kc /\ disk'.de = Ev.o.de /\ disk'.du = Ev.o.du
             /\ st' = Ev.o.sst /\ keyVer' = Ev.o.keyVer
